@@ -3,7 +3,7 @@
    every run. *)
 From Coq Require Import String.
 From Coq Require Import List NArith Arith Bool.
-From BS Require Import Base.Sexp Base.Types Base.Lit Model.Heap Model.Edit Model.Build Spec.BuildSpec Proofs.BuildRefines Gen.Tables.
+From BS Require Import Base.Sexp Base.Types Base.Lit Model.Heap Model.Edit Model.Build Spec.BuildSpec Proofs.BuildRefines Proofs.ParseRep Spec.Tree Gen.Tables.
 Import ListNotations.
 Open Scope N_scope.
 
@@ -25,6 +25,14 @@ Theorem C03_build_refines : forall cfg evs,
   b_stack b = [0%nat] /\ b_cur b = Some 0%nat.
 Proof. exact build_refines. Qed.
 Print Assumptions C03_build_refines.
+
+(* "The tree is always well linked (C01)": the same heap represents one tree in the sense of
+   Spec/Tree.v (all six links), rooted at the document object, pre-order = creation order *)
+Theorem C03_build_linked : forall cfg evs,
+  let b := feed cfg evs in
+  exists T, rid T = 0%nat /\ pre T = seq 0 (nxt (b_st b)) /\ rep [(T, false)] (hp (b_st b)).
+Proof. exact parse_rep. Qed.
+Print Assumptions C03_build_linked.
 
 (* an end tag for which no element of that name and prefix is open only flushes pending text *)
 Theorem C03_unknown_end_ignored : forall cfg s name prefix,
